@@ -586,6 +586,11 @@ class Ev:
 	def unify(self, a: Val, b: Val) -> tuple[Val, Val]:
 		if a.ty == b.ty:
 			return a, b
+		if isinstance(a.ty, TList) and isinstance(b.ty, TList):
+			if a.is_conc() and not a.conc:
+				return self.coerce(a, b.ty), b
+			if b.is_conc() and not b.conc:
+				return a, self.coerce(b, a.ty)
 		for x, y, sw in ((a, b, False), (b, a, True)):
 			try:
 				yy = self.coerce(y, x.ty)
@@ -667,7 +672,7 @@ class Ev:
 		if isinstance(a.ty, TStr) and isinstance(b.ty, TInt) and isinstance(op, ast.Mult):
 			return self.str_repeat(a, b)
 		if isinstance(a.ty, TList) and isinstance(b.ty, TList) and isinstance(op, ast.Add):
-			b = self.coerce(b, a.ty) if b.ty != a.ty else b
+			a, b = self.unify(a, b)
 			items = (a.items + b.items) if a.items is not None and b.items is not None else None
 			return Val(a.ty, z3.Concat(a.term, b.term), items=items)
 		if isinstance(a.ty, TList) and isinstance(b.ty, TInt) and isinstance(op, ast.Mult):
@@ -816,9 +821,22 @@ class Ev:
 		# repr of anything else: an unconstrained string (only used inside messages)
 		return self.eng.fresh(STR, 'repr')
 
+	def known(self, cond: Any) -> bool:
+		"""True only if the current path condition (and guards) proves cond; used to drop dead clamping branches."""
+		c = simp(cond)
+		if z3.is_true(c):
+			return True
+		if z3.is_false(c):
+			return False
+		if not self.st.pc and not self.guards:
+			return False
+		return quick_unsat(self.st.pc + self.guards + [z3.Not(cond)], 40)
+
 	def norm_index(self, i: Val, length: Any) -> Any:
 		if i.is_conc():
 			return z3.IntVal(i.conc) if i.conc >= 0 else length + i.conc
+		if self.known(i.term >= 0):
+			return i.term
 		return z3.If(i.term < 0, i.term + length, i.term)
 
 	def e_Subscript(self, n: ast.Subscript) -> Val:
@@ -875,6 +893,12 @@ class Ev:
 			if isinstance(v.ty, TOpt):
 				raise EngineError('optional slice bound')
 			i = self.norm_index(v, base_len)
+			lo_ok = self.known(i >= 0)
+			hi_ok = self.known(i <= base_len)
+			if lo_ok and hi_ok:
+				return i
+			if lo_ok:
+				return z3.If(i > base_len, base_len, i)
 			return z3.If(i < 0, 0, z3.If(i > base_len, base_len, i))
 		lo = clamp(self.eval(sl.lower) if sl.lower is not None else None, z3.IntVal(0))
 		hi = clamp(self.eval(sl.upper) if sl.upper is not None else None, base_len)
@@ -897,7 +921,8 @@ class Ev:
 		ln = z3.Length(base.term)
 		lo, hi = self.slice_bounds(ln, sl)
 		lo, hi = simp(lo), simp(hi)
-		return Val(t, z3.SubString(base.term, lo, z3.If(hi > lo, hi - lo, 0)) if isinstance(t, TStr) else z3.Extract(base.term, lo, z3.If(hi > lo, hi - lo, 0)))
+		ln2 = hi - lo if self.known(hi >= lo) else z3.If(hi > lo, hi - lo, 0)
+		return Val(t, z3.SubString(base.term, lo, ln2) if isinstance(t, TStr) else z3.Extract(base.term, lo, ln2))
 
 	# ---------------------------------------------------------------- displays
 	def e_List(self, n: ast.List) -> Val:
@@ -917,6 +942,8 @@ class Ev:
 			if ety is None:
 				ety = v.ty.elem if star and isinstance(v.ty, TList) else (v.ty if not star else None)
 		if ety is None:
+			if not vals:
+				return py_to_val([], TList(NONE))  # polymorphic empty list: coerced at use
 			raise EngineError('empty list display needs an annotation')
 		lty = TList(ety)
 		for star, v in vals:
